@@ -21,7 +21,10 @@ RULE = ('case = one `p8tool build` command line run by pico8.tool.main in a fres
         'sections one of {unspecified, --X <.p8 source>, --X <.p8.png source>, --empty-X, (lua) --lua <.lua file>} or an '
         'unusable form {--X with --empty-X, missing file, wrong extension, unreadable cart}; OUT in {absent, existing .p8 '
         'with label section, existing .p8 without, existing .p8.png with its own label picture, unreadable} x OUT name '
-        '{.p8, .p8.png, bad extension}; every source and every previous OUT has its own random contents in every section. '
+        '{.p8, .p8.png, bad extension}; every source and every previous OUT has its own random contents in every section; two of '
+        'the .p8 sources (s2.p8 with a label, s5.p8 without) are carts with SHORT sections the way newer PICO-8 versions save '
+        'them (a few rows, then nothing: the rows left out are the empty default), so a section taken from them must arrive '
+        'in OUT as the whole region. '
         'Observed: exit status / exception, the message, the Game handed to file.to_file, every path opened for writing, '
         'OUT bytes before/after, OUT read back with file.from_file (+ raw PNG pixels for the label picture). Compared with '
         'the extracted model of do_build (outcome, written cart, label source) and judged by the extracted Spec-only '
@@ -93,16 +96,22 @@ def _lua_prog(rng, tag, n):
     return b''.join(lines)
 
 
-def _mk_game(rng, tag, version, with_label):
+def _mk_game(rng, tag, version, with_label, short=False):
     from pico8.game.game import Game
     from pico8.gfx.gfx import Gfx
     from pico8.lua.lua import Lua
+    from props import shortp8
     g = Game.make_empty_game(version=version)
     for s in SECS[1:]:
         sec = getattr(g, s)
-        sec._data[:] = rng.randbytes(len(sec._data))
+        if short:
+            # random first rows, then what an empty cart holds: the .p8 file of this cart has short sections
+            sec._data[:] = shortp8.region_with_default_tail(rng, s, rng.choice([0, 1, 2, shortp8.ROWS[s] // 2]))
+        else:
+            sec._data[:] = rng.randbytes(len(sec._data))
     g.lua = Lua.from_lines([_lua_prog(rng, tag, rng.randrange(14, 40))], version=version)
-    g.label = Gfx(data=rng.randbytes(8192), version=version) if with_label else None
+    lab = shortp8.region_with_default_tail(rng, 'label', 3) if short else rng.randbytes(8192)
+    g.label = Gfx(data=lab, version=version) if with_label else None
     # restrict sfx/music to what the .p8 text can say: once through the sections' own line writer and reader
     from pico8.sfx.sfx import Sfx
     from pico8.music.music import Music
@@ -111,9 +120,11 @@ def _mk_game(rng, tag, version, with_label):
     return g
 
 
-def _write_p8(path, g):
+def _write_p8(path, g, short=False):
     """Assemble a .p8 file from the sections' own line encoders, independently of P8Formatter.to_file
-    (the pool must not depend on the writer whose use by `build` is being checked)."""
+    (the pool must not depend on the writer whose use by `build` is being checked).  short: as newer PICO-8 versions
+    save it - the trailing rows of every data section that hold the empty default are left out, sections without a
+    row altogether, no blank lines.  Returns the whole text (before any rows were left out)."""
     from pico8.lua.lua import p8scii_to_unicode
     out = [b'pico-8 cartridge // http://www.pico-8.com\n', b'version %d\n' % g.version, b'__lua__\n']
     code = _norm_lua(b''.join(g.lua.to_lines()))
@@ -128,7 +139,13 @@ def _write_p8(path, g):
         out.append(b'__%s__\n' % name.encode())
         out.extend(getattr(g, name).to_lines())
     out.append(b'\n')
-    fsx.write_file(path, b''.join(out))
+    whole = b''.join(out)
+    if short:
+        from props import shortp8
+        fsx.write_file(path, shortp8.strip_default_tail(whole)[0])
+    else:
+        fsx.write_file(path, whole)
+    return whole
 
 
 def _raw_sections(data):
@@ -182,7 +199,8 @@ class Pool:
             self.empty_label = self.id_of(bytes(Game.make_empty_game().label._data))
             versions = [8, 16, 29, 33, 41]
             for i in range(N_P8):
-                self._cart(rng, p8file, 's%d.p8' % i, versions[i % 5], with_label=(i % 2 == 0))
+                # s2.p8 and s5.p8 are carts with short sections (label / no label)
+                self._cart(rng, p8file, 's%d.p8' % i, versions[i % 5], with_label=(i % 2 == 0), short=(i % 3 == 2))
             for i in range(N_PNG):
                 self._cart(rng, p8file, 't%d.p8.png' % i, versions[(i + 2) % 5], with_label=False)
             for i in range(N_LUA):
@@ -222,14 +240,15 @@ class Pool:
     def _ids(self, contents):
         return {s: self.id_of(contents[s]) for s in SECS}
 
-    def _cart(self, rng, p8file, name, version, with_label, label_fname=None):
-        g = _mk_game(rng, name.split('.')[0], version, with_label)
+    def _cart(self, rng, p8file, name, version, with_label, label_fname=None, short=False):
+        g = _mk_game(rng, name.split('.')[0], version, with_label, short=short)
+        whole = None
         if name.endswith('.p8.png'):
             from pico8.game.formatter.p8png import P8PNGFormatter
             with io.open(self.path(name), 'wb') as fh:
                 P8PNGFormatter.to_file(g, fh, filename=name, label_fname=label_fname)
         else:
-            _write_p8(self.path(name), g)
+            whole = _write_p8(self.path(name), g, short=short)
         r = p8file.from_file(self.path(name))
         want, got = _contents(g), _contents(r)
         if want != got or r.version != version:
@@ -242,7 +261,7 @@ class Pool:
                 raise RuntimeError('pool cart %s: label section lost or invented' % name)
             if with_label:
                 e['label'] = self.id_of(bytes(r.label._data))
-            raw = _raw_sections(fsx.read_file(self.path(name)))
+            raw = _raw_sections(whole)       # the text of the whole regions (what a writer of this content produces)
             for sname in SECS[1:]:
                 self.raw_by_id[(sname, e['secs'][sname])] = raw.get(sname, b'')
             if with_label:
